@@ -783,6 +783,12 @@ def slice (s : Strm β) (lo hi : Option Int) : R (Sum (List β) (Strm β)) :=
 def reversed (s : Strm β) : R (Sum (List β) (Strm β)) := (s.ops.reversed s.st).map s.ofSlice
 /-- `Seq::is_empty` negated: `x.len() == Some(0)` -/
 def truthy (s : Strm β) : R Bool := s.len.map fun n => !(n == some 0)
+/-- `only` (lib.rs): `Some(1)` → the element, any other length (or infinite) → index error -/
+def only (s : Strm β) : R β :=
+  s.len.bind fun n =>
+    match n with
+    | some 1 => s.index 0
+    | _ => .throw
 /-- `obj_in`: iterate and compare -/
 def mem [DecidableEq β] (s : Strm β) (a : β) : R Bool :=
   match memLoop s.ops.next a (fuelOf (s.ops.bound s.st)) s.st with
